@@ -306,7 +306,7 @@ pub fn run(args: &Args) -> i32 {
         "PRNG tables (bucket size 1..30, 0-200 keys inserted/updated/removed through the Entry API) x 1-4 targets each; family hashed: Key<PeerId> tables with local/stored/peer/record-key targets; \
          family raw: KeyBytes at chosen distances over all 256 buckets (incl. buckets 0-3) with targets at edge distances from local/stored keys. Non-trivial = table with >= 2 stored keys; distinct by (local, bucket size, targets)",
     )));
-    let n = args.extra.get("budget").map(|b| if b == "tiny" { 12 } else { 500 }).unwrap_or(args.tier.pick(12_000, 400_000));
+    let n = args.extra.get("budget").map(|b| if b == "tiny" { 3 } else { 500 }).unwrap_or(args.tier.pick(12_000, 400_000));
     let dog = Dog::start(check, 60);
     vmon::par_cases(check, n, args.threads, |i, rng| {
         dog.enter(|| format!("case {i}"));
